@@ -193,6 +193,16 @@ def check(ctx):
     ops = [c for c in calls(r, "open")]
     ok = len(ops) == 1 and const(ops[0].args[1]) == "rb"
     ctx.ob("TAB.npy-stack.info-mode", r, "from_npy_stack reads it ('rb')", ok)
+    # ---------------- store(return_stored=True, compute=True): each stored array is read back through ITS OWN region
+    stf = ctx.model.module("dask/array/core.py").func("store")
+    lp = [l for l in ast.walk(stf) if isinstance(l, ast.For) and "stored_persisted" in unparse(l.iter)]
+    ok = len(lp) == 1 and eqv(lp[0].iter, "zip(stored_persisted, regions_list)") and eqv(lp[0].target, "(s, r)")
+    ctx.ob("PAIR.store.readback-region", stf, "for s, r in zip(stored_persisted, regions_list): the i-th result is loaded from the i-th region", ok, "" if ok else "a stale region from an earlier loop is used for every source: all returned arrays but one are read from the wrong window")
+    # ---------------- fuse_slice: an integer of ANY integer type removes the axis
+    fsl = ctx.model.module("dask/array/optimization.py").func("fuse_slice")
+    tst = [n for n in ast.walk(fsl) if isinstance(n, ast.If) and "j == len(b)" in unparse(n.test)]
+    ok = len(tst) == 1 and eqv(tst[0].test, "isinstance(a[i], Integral) or j == len(b)")
+    ctx.ob("TAB.fuse-slice.integral", fsl, "fuse_slice recognises index entries with isinstance(a[i], Integral) (numpy integers included)", ok, "" if ok else "np.int64 region entries are not recognised: the store task raises NotImplementedError instead of writing target[region]")
 
 
 VARIANTS = [
